@@ -582,13 +582,15 @@ func AmountSplit(amount uint64) []uint64 {
 }
 
 func CheckDuplicateProofs(proofs Proofs) bool {
-	proofsMap := make(map[Proof]bool)
+	// proofs are duplicates if they have the same secret,
+	// regardless of the other fields (witness, dleq)
+	secrets := make(map[string]bool)
 
 	for _, proof := range proofs {
-		if proofsMap[proof] {
+		if secrets[proof.Secret] {
 			return true
 		} else {
-			proofsMap[proof] = true
+			secrets[proof.Secret] = true
 		}
 	}
 
